@@ -11,8 +11,10 @@ from ..core import frac, call_real
 from .c04 import ScriptedChoice
 
 ID = "C05"
-LEAN_MODULE = "CKT.Props.C05"
+LEAN_MODULE = "CKT.Props.C05Gen"
 THEOREMS = [
+    # the coefficient arithmetic of the model is the translated source (harness/translate/coeffs.py -> Generated/Coeffs.lean)
+    "CKT.C05Gen.coeffOf_translated",
     "CKT.C05.insertByWeight_perm", "CKT.C05.sortByWeight_perm", "CKT.C05.sortByWeight_length", "CKT.C05.abs_coeffOf",
     "CKT.C05.sum_abs_coeff", "CKT.C05.sign_coeffOf", "CKT.C05.exact_coeff", "CKT.C05.forMR_length", "CKT.C05.forMR_mem", "CKT.C05.counts",
 ]
@@ -155,6 +157,14 @@ def _reset_then_second_operand_cases():
     for k, (nq, instrs, labels, obs, form, n_) in enumerate(fam):
         yield ("generate", {"nq": nq, "qregs": [nq], "instrs": instrs, "labels": labels, "pool_idx": [0, 1], "obs": [{"l": l, "p": 0} for l in obs],
                             "idle": [], "part": labels, "form": form, "N": n_, "seed": 51700 + k, "always_oracle": True})
+
+
+def regenerate():
+    """the coefficient expression of generate_cutting_experiments (and the reset passes it applies), translated on every run"""
+    from ..translate import coeffs, resets
+    from ..core import REPO, LEAN
+    coeffs.regenerate(REPO, LEAN)
+    resets.regenerate(REPO, LEAN)
 
 
 def cases(rng, tier):
